@@ -75,3 +75,60 @@ Proof.
     try (exfalso; apply Hne; reflexivity);
     cbn in W |- *; apply Nat.eqb_eq in W; subst l; reflexivity.
 Qed.
+
+(* The shape of C19 itself: values are locations holding their whole state; a goroutine mutates and queries
+   only the values it owns, and anybody may query (read-only) the values that nobody owns.  Every schedule in
+   this discipline is conflict free, hence: under every interleaving every goroutine obtains exactly the
+   results it obtains alone, and its own values end in the state they reach alone.  S and the transformers /
+   queries are arbitrary: in particular the step functions of the models of this development (iterators,
+   builders, canonical-labelling storage, disjoint sets). *)
+Theorem C19_distinct_values_and_shared_queries_partial :
+  forall (S R : Type) (owner : loc -> option nat) (s : list (nat * op S R)) (h0 : heap S) (i : nat),
+    Forall (disciplined S R owner) s ->
+    proj i (snd (exec S R h0 s)) = snd (exec1 S R h0 (proj i s)) /\
+    forall l, tfp S R i s l -> fst (exec S R h0 s) l = fst (exec1 S R h0 (proj i s)) l.
+Proof. exact values_alone. Qed.
+Print Assumptions C19_distinct_values_and_shared_queries_partial.
+
+(* Non-vacuity with a model of this development: the array-level model of disjoint.Set (Disjoint/Model.v, the
+   model of C18).  Value 0 is a finished shared Set that both goroutines only inspect with Roots (read-only:
+   Find is NOT — it compresses paths — and is therefore used on owned values only); goroutine 0 owns value 1,
+   goroutine 1 owns value 2; unions and finds interleaved: everybody sees what they see alone. *)
+From Mamba Require Disjoint.Model.
+Definition ds_state := option Disjoint.Model.dset.
+Definition ds_mut (v : loc) (o : Disjoint.Model.op) : op ds_state (list nat) :=
+  mut_op ds_state (list nat) v
+    (fun s => match s with
+              | Some ds => match o with
+                           | Disjoint.Model.OFind x | Disjoint.Model.OFindB x =>
+                               match Disjoint.Model.find ds x with Some (d, r) => (Some d, [r]) | None => (None, []) end
+                           | _ => (Disjoint.Model.step ds o, [])
+                           end
+              | None => (None, [])
+              end).
+Definition ds_roots (v : loc) : op ds_state (list nat) :=
+  query_op ds_state (list nat) v (fun s => match s with Some ds => Disjoint.Model.roots ds | None => [] end).
+Definition ds_owner (v : loc) : option nat := match v with 1 => Some 0 | 2 => Some 1 | _ => None end.
+Definition ds_h0 : heap ds_state :=
+  fun l => match l with
+           | 0 => Disjoint.Model.run 4 [Disjoint.Model.OUnion 0 1; Disjoint.Model.OUnion 2 3]
+           | _ => Some (Disjoint.Model.new 5)
+           end.
+Definition ds_sched : list (nat * op ds_state (list nat)) :=
+  [(0, ds_mut 1 (Disjoint.Model.OUnion 0 1)); (1, ds_mut 2 (Disjoint.Model.OUnion 3 4)); (1, ds_roots 0);
+   (0, ds_mut 1 (Disjoint.Model.OUnion 1 2)); (1, ds_mut 2 (Disjoint.Model.OUnion 2 3)); (0, ds_roots 0);
+   (1, ds_mut 2 (Disjoint.Model.OFind 4)); (0, ds_mut 1 (Disjoint.Model.OFind 0)); (1, ds_roots 2); (0, ds_roots 1)].
+
+Example C19_values_nonvacuous :
+  Forall (disciplined ds_state (list nat) ds_owner) ds_sched /\
+  proj 0 (snd (exec _ _ ds_h0 ds_sched)) = snd (exec1 _ _ ds_h0 (proj 0 ds_sched)) /\
+  proj 1 (snd (exec _ _ ds_h0 ds_sched)) = snd (exec1 _ _ ds_h0 (proj 1 ds_sched)) /\
+  proj 1 (snd (exec _ _ ds_h0 ds_sched)) <> proj 0 (snd (exec _ _ ds_h0 ds_sched)) /\
+  length (proj 0 (snd (exec _ _ ds_h0 ds_sched))) = 5.
+Proof.
+  split.
+  - unfold ds_sched, ds_mut, ds_roots.
+    repeat (apply Forall_cons; [first [apply d_mut; reflexivity | apply d_own_query; reflexivity | apply d_shared_query; reflexivity]|]).
+    apply Forall_nil.
+  - vm_compute. repeat split; discriminate.
+Qed.
